@@ -161,8 +161,8 @@ pub fn compare_no_relative<S: Src>(s: &mut S) {
     let mut b = [0.0f64; 10];
     let mut ta: i128 = 0;
     let mut tb: i128 = 0;
-    for i in [3usize, 8, 9] {
-        // days, microseconds, nanoseconds: the unit extremes, unbalanced on purpose
+    for i in [8usize, 9] {
+        // microseconds and nanoseconds, unbalanced on purpose (each may exceed 1000)
         let x = s.i32_in(-100_000, 100_000);
         let y = s.i32_in(-100_000, 100_000);
         a[i] = x as f64;
@@ -181,7 +181,36 @@ pub fn compare_no_relative<S: Src>(s: &mut S) {
     vcover!(s, "C09.compare.unequal_reachable", ta != tb);
 }
 
+fn fields_of(d: &Duration) -> [f64; 10] {
+    [d.years().as_inner(), d.months().as_inner(), d.weeks().as_inner(), d.days().as_inner(), d.hours().as_inner(),
+     d.minutes().as_inner(), d.seconds().as_inner(), d.milliseconds().as_inner(), d.microseconds().as_inner(), d.nanoseconds().as_inner()]
+}
+
+/// C02 on durations: whatever add/subtract returns successfully is itself a valid duration (sum near the 2^53 s cap,
+/// nanosecond-only operands so the result's largest unit is the nanosecond and one double carries the whole total)
+pub fn add_result_valid_near_cap<S: Src>(s: &mut S) {
+    let x = any_integral(s);
+    let y = any_integral(s);
+    s.assume(x >= 0.0 && y >= 0.0 && x < 9.1e24 && y < 9.1e24);
+    let mut a = [0.0f64; 10];
+    let mut b = [0.0f64; 10];
+    a[9] = x;
+    b[9] = y;
+    let (Ok(da), Ok(db)) = (mk(&a), mk(&b)) else { return };
+    vcover!(s, "C09.add_cap.sum_above_cap_reachable", (x as i128) + (y as i128) >= LIMIT_NS);
+    vcover!(s, "C09.add_cap.sum_just_below_cap_reachable", (x as i128) + (y as i128) == LIMIT_NS - 1);
+    match da.add(&db) {
+        Ok(r) => {
+            let f = fields_of(&r);
+            vassert!(s, "C09.add_cap.successful_sum_is_a_valid_duration", ref_valid(&f));
+            vassert!(s, "C09.add_cap.exact_sum_is_below_cap", (x as i128) + (y as i128) < LIMIT_NS);
+        }
+        Err(e) => vassert!(s, "C09.add_cap.failure_is_range_error", e.kind() == ErrorKind::Range),
+    }
+}
+
 crate::harnesses! { REGISTRY;
+    c09_add_result_valid_near_cap [unwind 12] = |s| add_result_valid_near_cap(s);
     c09_valid_sign [unwind 12] = |s| valid_sign(s);
     c09_valid_calendar_fields [unwind 12] = |s| valid_calendar_fields(s);
     c09_valid_days_hours [unwind 12] = |s| valid_time_fields(s, false, 3, 5);
